@@ -73,6 +73,7 @@ type lprofile struct {
 	quickCases int
 	thorCases  int
 	raceCases  int
+	overLimit  bool
 }
 
 var lprofiles = map[string]*lprofile{
@@ -81,7 +82,7 @@ var lprofiles = map[string]*lprofile{
 	"C03": {prop: "C03", onlyCompl: true, qmax: 3000, quickCases: 1200, thorCases: 24000, raceCases: 300},
 	"C09": {prop: "C09", noNone: true, qmax: 0, quickCases: 1500, thorCases: 30000},
 	"C10": {prop: "C10", qmax: 3000, quickCases: 1000, thorCases: 20000, raceCases: 400},
-	"C13": {prop: "C13", qmax: 2000, quickCases: 1000, thorCases: 20000},
+	"C13": {prop: "C13", qmax: 2000, quickCases: 1000, thorCases: 20000, overLimit: true},
 	"C14": {prop: "C14", kinds: []string{"i8", "i16", "i32", "i64"}, qmax: 1500, quickCases: 1600, thorCases: 30000},
 	"C18": {prop: "C18", qmax: 0, quickCases: 1500, thorCases: 20000},
 }
@@ -101,10 +102,16 @@ func numBig(tier string) int {
 	if tier == "thorough" {
 		return 24
 	}
-	return 3
+	return 4
 }
 
 func genBig(r *RNG, j int) KeySet {
+	if j%4 == 3 || j == 0 {
+		// thousands of 257-bit nodes
+		a := r.Range(11, 16)
+		d := 4
+		return KeySet{"big:dense-alpha-d4", genDenseAlpha(r, a, d, r.Intn(50))}
+	}
 	switch j % 3 {
 	case 0:
 		var k []string
@@ -127,6 +134,9 @@ func genBig(r *RNG, j int) KeySet {
 
 func (p *lprofile) numCases(tier string) int {
 	n := len(directedKeySets())*2 + numBig(tier)
+	if p.overLimit {
+		n += 4
+	}
 	if p.usesExhaustive() {
 		n += exhNumChunks(tier)
 	}
@@ -140,6 +150,14 @@ func (p *lprofile) numCases(tier string) int {
 func (p *lprofile) caseAt(ctx *Ctx, idx int) (*LCase, *ExhSpace, [][]int) {
 	r := NewRNG(caseSeed(ctx.Seed, "lookup-"+p.prop, ctx.Tier, idx))
 	dir := directedKeySets()
+	if p.overLimit {
+		// C13 relates the option sets for ANY accepted list: include shared runs
+		// beyond the documented key length (32768..65535 half-bytes), where the
+		// step-only modes and the prefix-storing modes use different code
+		dir = append(dir,
+			KeySet{"directed:run-34000-halfbytes", sortUniq([]string{"a" + rep("x", 17000) + "1", "a" + rep("x", 17000) + "2", "b"})},
+			KeySet{"directed:run-60000-halfbytes", sortUniq([]string{rep("\xfe", 30000) + "\x10", rep("\xfe", 30000) + "\x20z", rep("\xfe", 30000) + "\x30"})})
+	}
 	if idx < len(dir)*2 {
 		ks := dir[idx/2]
 		kind := p.pickKind(r)
@@ -322,7 +340,10 @@ func (e *lookupEnv) oracleC03(qs []string) {
 	none := m.Vals.IsNone()
 	var nHit, nMiss int64
 	pv, stack := try(func() {
-		for _, q := range qs {
+		for qi, q := range qs {
+			if qi&255 == 0 {
+				e.ctx.Beat()
+			}
 			cur = q
 			l, eq, r := m.SearchPos(q)
 			v, found := st.Get(q)
@@ -447,6 +468,9 @@ func (e *lookupEnv) oracleC10(qs []string, keep bool, strict bool) []qres {
 	}
 	var nFound, nFP int64
 	for qi, q := range qs {
+		if qi&63 == 0 {
+			e.ctx.Beat()
+		}
 		var v, rv, lv, ev, rrv interface{}
 		var found, rfound bool
 		var id int32
@@ -461,8 +485,9 @@ func (e *lookupEnv) oracleC10(qs []string, keep bool, strict bool) []qres {
 			lv, ev, rrv = st.Search(q)
 		})
 		if pv != nil {
+			// in the relational checks too: no answer, no relation
+			e.viol("panic-"+api, q, map[string]interface{}{"panic": fmt.Sprint(pv), "stack": stack})
 			if strict {
-				e.viol("panic-"+api, q, map[string]interface{}{"panic": fmt.Sprint(pv), "stack": stack})
 				return out
 			}
 			return nil
@@ -683,6 +708,7 @@ func runLookupCase(ctx *Ctx, prop string, lc *LCase, caseIdx int) {
 	opts := allOptSets()
 	sampled := false
 	for oi, o := range opts {
+		ctx.Beat()
 		if p.onlyCompl && !o.Complete() {
 			continue
 		}
@@ -741,8 +767,43 @@ func runLookupCase(ctx *Ctx, prop string, lc *LCase, caseIdx int) {
 				insts = append(insts, Inst{"proto-loaded", pl})
 			}
 		}
+		// an instance that held another trie (and answered reads) before a direct Unmarshal
+		if !lc.Exh && (caseIdx+oi)%4 == 1 {
+			var oldVals interface{}
+			if !lc.Vals.IsNone() && n >= 3 {
+				oldVals = lc.Vals.Prefix(3).Slice()
+			}
+			rl, err, pv, stack := loadTrieReused(enc, stream, oldVals)
+			if pv != nil || err != nil {
+				env.inst = "reloaded"
+				env.viol("load-failed", "", map[string]interface{}{"panic": fmt.Sprint(pv), "error": fmt.Sprint(err), "stack": stack})
+			} else {
+				insts = append(insts, Inst{"reloaded", rl})
+			}
+		}
+		// the same index in historical layouts (fixed-size values only): 0.5.10
+		// for the three option sets that version could write, three-section for
+		// the default one. The builder is trusted here only as far as C06 does:
+		// the fresh instance is checked by the same oracle in this very case.
+		if !lc.Exh && o.D && lc.Vals.Kind != "none" && lc.Vals.FixedSize() && (caseIdx+oi)%2 == 0 {
+			if (!o.L && !o.C) || (o.C && !o.I && !o.L) {
+				if ls, err := legacyStream0510(stream, []string{"0.5.10", "0.5.11"}[caseIdx%2]); err == nil {
+					if lg, err, pv, _ := loadTrie(enc, ls); err == nil && pv == nil {
+						insts = append(insts, Inst{"legacy-0.5.10-loaded", lg})
+					}
+				}
+			}
+			if !o.I && !o.L && !o.C {
+				if ls, ok := legacyStream3(lc.Keys, lc.Vals, oldVariants[(caseIdx/2)%len(oldVariants)]); ok {
+					if lg, err, pv, _ := loadTrie(enc, ls); err == nil && pv == nil {
+						insts = append(insts, Inst{"legacy-3sec-loaded", lg})
+					}
+				}
+			}
+		}
 		var stat0 *trie.Stat
 		for ii, in := range insts {
+			ctx.Beat()
 			env.inst = in.Name
 			env.st = in.St
 			ctx.Count("instances:"+in.Name, 1)
@@ -771,6 +832,11 @@ func runLookupCase(ctx *Ctx, prop string, lc *LCase, caseIdx int) {
 				s := env.oracleC18()
 				if ii == 0 {
 					stat0 = s
+				} else if in.Name == "legacy-3sec-loaded" {
+					// another structure (no 257-bit nodes): only the key count carries over
+					if s != nil && stat0 != nil && s.KeyCnt != stat0.KeyCnt {
+						env.viol("stat-keycnt-legacy", "", map[string]interface{}{"fresh": stat0.KeyCnt, in.Name: s.KeyCnt})
+					}
 				} else if s != nil && stat0 != nil && fmt.Sprintf("%+v", *s) != fmt.Sprintf("%+v", *stat0) {
 					env.viol("stat-changed-by-roundtrip", "", map[string]interface{}{"fresh": fmt.Sprintf("%+v", *stat0), in.Name: fmt.Sprintf("%+v", *s)})
 				}
@@ -780,16 +846,15 @@ func runLookupCase(ctx *Ctx, prop string, lc *LCase, caseIdx int) {
 			sampled = true
 			d := lc.describe()
 			d["opt"] = o.String()
+			q := lc.Keys[n-1]
 			if len(qs) > 0 {
-				q := qs[len(qs)/2]
+				q = qs[len(qs)/2]
+			}
+			try(func() {
 				v, f := st.Get(q)
 				d["example_query_hex"] = hexq(q)
 				d["example_Get"] = []interface{}{show(v), f}
-			} else if n > 0 {
-				v, f := st.Get(lc.Keys[n-1])
-				d["example_query_hex"] = hexq(lc.Keys[n-1])
-				d["example_Get"] = []interface{}{show(v), f}
-			}
+			})
 			ctx.Sample(d)
 		}
 	}
@@ -1072,9 +1137,9 @@ var _ = encode.I32{}
 func init() {
 	commonShapes := []string{"shape:with_257bit_nodes", "shape:with_257bit_below_root", "shape:with_17bit_nodes", "shape:with_short_nodes",
 		"shape:with_straddling_short", "shape:with_end_of_key_label", "shape:with_step_ge256", "shape:with_halfbyte_prefix", "shape:with_aligned_prefix",
-		"instances:fresh", "instances:loaded", "instances:proto-loaded", "shape:nodes_gt_65535"}
+		"instances:fresh", "instances:loaded", "instances:proto-loaded", "instances:reloaded", "instances:legacy-0.5.10-loaded", "instances:legacy-3sec-loaded", "shape:nodes_gt_65535", "shape:with_more_than_257_big_nodes"}
 	register(lookupCheckDef("C01",
-		"case = (key list, value list+encoder); each case is run under all 16 option sets on fresh, Unmarshal-loaded and (rotating) proto.Unmarshal-loaded instances; oracle: Get/GetID on every retained key; non-trivial = at least 2 retained keys (so at least one inner node); distinct by hash of keys and encoded values",
+		"case = (key list, value list+encoder); each case is run under all 16 option sets on fresh, Unmarshal-loaded and (rotating) proto.Unmarshal-loaded, reloaded (direct Unmarshal into an instance that held another trie and answered reads) and legacy-layout-loaded (0.5.10/0.5.11, three-section; fixed-size values) instances; oracle: Get/GetID on every retained key; non-trivial = at least 2 retained keys (so at least one inner node); distinct by hash of keys and encoded values",
 		shapeGates(append([]string{"shape:with_varlen_leaves", "shape:with_empty_leaves", "shape:with_single_label_inner", "cases:with_dropped_keys"}, commonShapes...)...)))
 	register(lookupCheckDef("C02",
 		"case = (key list, run-length value list+encoder) x 16 option sets x fresh/loaded; oracle: RangeGet on every input key (retained or de-duplicated) returns the value supplied for it, also through index.SlimIndex; non-trivial = at least 2 retained keys; distinct by hash of keys and encoded values",
@@ -1090,12 +1155,13 @@ func init() {
 		"case = (key list, value list or none) x 16 option sets x fresh/loaded; oracle on every query of Q(K): no panic, returns; Get/GetID/Search.eq agree; Get found => RangeGet found with the same value; every reported value is one of the supplied values; non-trivial = at least 2 retained keys",
 		shapeGates(append([]string{"queries:false_positive", "valkind:none", "family:directed:empty", "family:directed:single-1"}, commonShapes...)...))
 	c10.HangIsViolation = true
+	c10.MemoryIsViolation = true
 	c10.HangSeconds = 120
 	register(c10)
 	register(lookupCheckDef("C13",
 		"case = (key list, value list) built under all 16 option sets; oracle: for every query and every ordered pair of option sets (equal DedupValue) where one stores strictly more prefix information, found(more) => found(less) with the same value; Complete finds exactly the retained keys; option sets that normalise equally answer identically; non-trivial = at least 2 retained keys",
-		shapeGates("implications_checked", "shape:with_257bit_nodes", "shape:with_short_nodes", "shape:with_halfbyte_prefix")))
+		shapeGates("implications_checked", "shape:with_257bit_nodes", "shape:with_short_nodes", "shape:with_halfbyte_prefix", "family:directed:run-34000-halfbytes")))
 	register(lookupCheckDef("C14",
 		"case = (key list, full-range integer values of width 8/16/32/64) x 16 option sets x fresh/loaded; oracle: GetI8/16/32/64(q) == Get(q) in found flag and number for every query of Q(K); non-trivial = at least 2 retained keys",
-		shapeGates("valkind:i8", "valkind:i16", "valkind:i32", "valkind:i64", "cases:with_dropped_keys", "queries:found", "instances:loaded")))
+		shapeGates("valkind:i8", "valkind:i16", "valkind:i32", "valkind:i64", "cases:with_dropped_keys", "queries:found", "instances:loaded", "instances:reloaded", "instances:legacy-0.5.10-loaded", "instances:legacy-3sec-loaded")))
 }
